@@ -233,8 +233,15 @@ func (sk *skeler) stmt(s ast.Statement) *stm {
 	case *ast.SwitchStatement:
 		sk.fns(s.Discriminant, &fns)
 		l := fnStms(fns)
+		seenDefault := false
 		for _, c := range s.Body {
 			var cf [][]*stm
+			if c.Test == nil {
+				if seenDefault { // ES5 12.11: at most one DefaultClause
+					l = append(l, &stm{k: "Expr", e: 6})
+				}
+				seenDefault = true
+			}
 			sk.fns(c.Test, &cf)
 			l = append(l, fnStms(cf)...)
 			l = append(l, sk.list(c.Consequent)...)
